@@ -27,7 +27,7 @@ func parqMain(args []string) {
 		recv := buildRecv(parts[1])
 		qs := strings.Split(parts[2], " ; ")
 		want := make([]string, len(qs))
-		parallelFirst := i%2 == 1 // half of the structures are hit by the goroutines before any sequential call (first-use effects)
+		parallelFirst := i%2 == 1 || i < 8 // half of the structures are hit by the goroutines before any sequential call (first-use effects)
 		if !parallelFirst {
 			for k, q := range qs {
 				want[k], _ = invoke(recv, q)
